@@ -257,6 +257,11 @@ class C02(Prop):
                                'warmup_delay': rng.choice([0.3, 1.7]),
                                'singleton': False})
             wi = cfg['watchers'].index(wc)
+            for other in cfg['watchers']:
+                if other is not wc and rng.random() < 0.5:
+                    # an ordinary watcher that uses the managed sockets too:
+                    # a socket event is none of its business
+                    other['opts']['use_sockets'] = True
             # keep to the part of on-demand behaviour the statement speaks
             # about: a watcher that loses a worker while a socket event is
             # pending is a different story (see DESIGN 10.6)
